@@ -106,6 +106,11 @@ class FakeServer:
         fut.set_result(None)
 
     async def round_trip(self, client):
+        client.round_trips = getattr(client, "round_trips", 0) + 1
+        die_after = getattr(client, "die_after", None)
+        if die_after is not None and client.round_trips > die_after:
+            # the client's process is dead: this command never reaches the server
+            await asyncio.get_running_loop().create_future()
         if self.latency is not None:
             d = self.latency(client)
             if d is not None:
